@@ -65,6 +65,71 @@ CHECKS = {
    note="Trusted: Coq kernel + VM; hand-written model of updateHIDIConfiguration and of the os calls it uses (open/create/truncate/write/mkdir semantics as exercised); file contents abstracted to chunk-id lists cut at every length the run needs (exact for the model's operations); a crash is modelled as a prefix of the mutation list plus a partial last write. No axioms.",
    technique="Coq proof over a file-system model with explicit mutation lists (prefix = crash point) + differential correspondence on real trees incl. strace syscall order",
    design="§5 C18", engine="coq-model+go-overlay-harness+strace-order"),
+
+ "C01": dict(
+   text="Proof: Coq theorems, by induction over arbitrary alternating histories of key events AND arbitrary analog samples, all four collision "
+        "modes, all configurations: after the disconnect clean-up nothing the device started is sounding at the receiver (C01_disconnect, no side "
+        "hypothesis, every prefix of every history); whenever no key is down and the axis tracker is empty nothing is sounding "
+        "(C01_quiescent_partial); the invariants behind both for every reachable state: tracked keys are down, the collision counter equals the "
+        "number of trackers per pair, everything sounding is backed by a tracker entry (C01_invariants). The key-emulating-axis + mapping-switch "
+        "stuck note is a refuted witness (C01_keysim_mapping_refuted, finding K2). Tie to /repo: the real Device is stepped event by event through "
+        "generated histories and templates; a subset is disconnected at every prefix; the receiver-side sounding set is reconstructed in coqc from "
+        "the implementation's bytes and must be empty at every quiescent point and after clean-up.",
+   note="Trusted: Coq kernel + VM; hand-written device model compared per event with the implementation; 'no key-emulating axis held' is stated on the axis tracker, not on the physical position (K2); one key code is assumed not to be emitted by two sub-handlers at once. No axioms.",
+   technique="Coq proof by invariant induction over histories + per-event differential correspondence with receiver-side reconstruction",
+   design="§5 C01"),
+ "C02": dict(
+   text="Proof: Coq theorem over every alternating history h1 ++ [press k] ++ h2 ++ [release k] with h2 arbitrary (any number of state-changing "
+        "actions, mapping switches to mappings where k is unmapped or mapped elsewhere, other keys, analog samples): the release emits only Note Off "
+        "of exactly the pair the press resolved to in the state at the press, the press emits only Note On/Off of that pair, nothing if it resolved to "
+        "nothing (C02_release_pinned); every action key except panic is silent and leaves all trackers untouched in any state (C02_actions_silent); "
+        "a key's tracker entry is frozen by every other event (C02_tracker_frozen). Tie to /repo: per-event monitor in coqc on the implementation's "
+        "bytes, using only the history and the implementation's own State() to compute the pair a press resolves to.",
+   note="Trusted: Coq kernel + VM; hand-written device model; Go channel stepping (EV_SYN sentinel). No axioms.",
+   technique="Coq proof (frame lemma lifted over histories) + per-event differential correspondence",
+   design="§5 C02"),
+ "C03": dict(
+   text="Proof: Coq theorems for every configuration and every alternating history: the messages of a press / release are exactly the collision rule "
+        "(off, no_repeat, interrupt, retrigger) applied to the number of holders of the (channel, pitch) pair, where holders = trackers holding the "
+        "pair (= keys down whose last press resolved to it, by C02), and the holder count moves by exactly one (C03_press, C03_release); in the managed "
+        "modes the Note Off is sent exactly by the release of the last holder (C03_one_off_at_last_holder). Unbounded number of keys and holders. "
+        "Tie to /repo: every interleaving of 2, 3 and 4 keys on one pitch (direct, via offsets, via transposition between presses) in all 4 modes plus "
+        "random histories; the rule is evaluated in coqc on the implementation's bytes with holders counted from the history.",
+   note="Trusted: Coq kernel + VM; hand-written device model; one key code not emitted by two sub-handlers at once. No axioms.",
+   technique="Coq proof using the counter-equals-multiplicity invariant + exhaustive-interleaving differential correspondence",
+   design="§5 C03"),
+ "C04": dict(
+   text="Proof: Coq theorems for ANY state: a note-key press sounds base+12*octave+semitone with the configured velocity on (channel+offset) mod 16 "
+        "and records that pair, or sends nothing and changes nothing outside 0-127 (C04_press_formula, C04_press_messages); each action applies the "
+        "property's arithmetic - unit steps, saturation at channel 16 / last mapping (C04_actions_partial: strictly inside the int8 range; the wrap at "
+        "the boundary is C04_wrap_refuted, known finding K1); completing exactly one up/down pair resets that parameter and does not apply the single "
+        "action (C04_pair_reset), completing none applies it (C04_single_action); defaults are the initial state (C04_initial); the mapping index stays "
+        "in range along every history (C04_mapping_in_range); the original int8 product is refuted (C04_int8_product_refuted, fixed in /repo). "
+        "Tie to /repo: a spec interpreter (the theorems' spec_action / reset / formula) runs in coqc against State() and the Note-On triple of every "
+        "event of generated histories (octave runs to +-25, channel/mapping walks past both ends, all pair orders, default extremes, channel x offset grid).",
+   note="Trusted: Coq kernel + VM; hand-written device model. Known finding K1 (int8 wrap after 128 steps) is reported as KNOWN-FINDING. No axioms.",
+   technique="Coq proof by case analysis of the action table and press path + differential correspondence against a spec interpreter",
+   design="§5 C04"),
+ "C05": dict(
+   text="Proof: Coq theorem for every configuration with parser-guaranteed defaults (1 <= channel <= 16, 0 <= velocity <= 127), EVERY history of key "
+        "events (no alternation, any values) and analog samples with bounded data bytes: every message emitted while running and during clean-up is "
+        "[status+channel; d1; d2] with status in {0x80,0x90,0xB0,0xE0}, channel < 16, data < 128, and the current channel stays < 16 (C05_wf); the "
+        "run-time monitor is sound for that predicate (C05_monitor_sound); default channel 0 is refuted (C05_default_channel_refuted). Tie to /repo: "
+        "corner configurations go through the REAL ParseData (channel 0/1/16/17, velocity 0/1/127/128, offsets) and then the real Device; panic on every "
+        "channel, channel walks, hostile key values; the monitor runs in coqc on every implementation message.",
+   note="Trusted: Coq kernel + VM; hand-written device model; the bounds on CC / pitch-bend data bytes of analog samples are hypotheses of C05_wf discharged by the float layer (C06). No axioms.",
+   technique="Coq proof by invariant induction (no alternation hypothesis) + differential correspondence through the real parser",
+   design="§5 C05"),
+ "C13": dict(
+   text="Proof: Coq theorems: a triggered panic press (mapped to panic, not completing the exit sequence, no up/down pair held) in ANY state emits exactly "
+        "CC 123 + 128 Note Offs on the current channel and changes only the key/action trackers (C13_burst); the burst has 129 messages and adds "
+        "nothing to any receiver state (C13_burst_shape); for every history h1 and EVERY continuation h2, inserting the panic key's press+release "
+        "changes no later output and not the final state (C13_transparent). Tie to /repo: panic inserted at every admissible position of base "
+        "histories; each variant and its panic-free twin run on the real device; burst bytes and twin equality (later outputs, clean-up, State()) "
+        "checked in coqc.",
+   note="Trusted: Coq kernel + VM; hand-written device model (the MIDI-input tracker that panic also clears belongs to C17). C13_transparent assumes no other panic source is engaged at that moment. No axioms.",
+   technique="Coq proof (exact state round-trip) + twin-history differential correspondence",
+   design="§5 C13"),
 }
 
 def main():
